@@ -179,7 +179,17 @@ def pickName (bi : BInfo) : Res Bytes :=
   else if !validComponent name then .err .badName
   else .ok name
 
-def metadataComplete (psLen : Int) (bi : BInfo) : Res Geom :=
+/-- what the checks of MetadataComplete compute before anything is assigned -/
+structure Checked where
+  multi : Bool
+  files : List GFile
+  length : Int
+  chunks : Nat
+  name : Bytes
+
+/-- every test of Torrent.MetadataComplete, in the order written: nothing is assigned to
+    the Torrent before the last of them has passed -/
+def checks (bi : BInfo) : Res Checked :=
   if bi.pieces.length % 20 ≠ 0 then .err .oddPieces
   else if bi.pieceLength.toNat = 0 ∨ bi.pieceLength.toNat % 16384 ≠ 0 then .err .oddPiece
   else
@@ -187,10 +197,54 @@ def metadataComplete (psLen : Int) (bi : BInfo) : Res Geom :=
     (pathChecks lf.2.1).bind fun _ =>
     (sizeChecks bi lf.2.2).bind fun chunks =>
     (pickName bi).bind fun name =>
-    (piecesMetadataComplete psLen bi.pieceLength lf.2.2).bind fun n =>
-      .ok { name := name, pieceLength := bi.pieceLength.toNat, length := lf.2.2,
-            multi := lf.1, files := lf.2.1, nInFlight := chunks,
-            nPieces := n, nHashes := bi.pieces.length / 20 }
+      .ok { multi := lf.1, files := lf.2.1, length := lf.2.2, chunks := chunks, name := name }
+
+def metadataComplete (psLen : Int) (bi : BInfo) : Res Geom :=
+  (checks bi).bind fun c =>
+  (piecesMetadataComplete psLen bi.pieceLength c.length).bind fun n =>
+    .ok { name := c.name, pieceLength := bi.pieceLength.toNat, length := c.length,
+          multi := c.multi, files := c.files, nInFlight := c.chunks,
+          nPieces := n, nHashes := bi.pieces.length / 20 }
+
+/-- the fields of Torrent / Pieces that MetadataComplete assigns (`none` = nil) -/
+structure TState where
+  name : Bytes                    -- Torrent.Name (a magnet's `dn` before the metadata)
+  inFlight : Option Nat           -- len(Torrent.inFlight)
+  nHashes : Option Nat            -- len(Torrent.PieceHashes)
+  psLen : Int                     -- Pieces.length
+  pieceSize : Nat                 -- Pieces.pieceSize
+  nPieces : Nat                   -- len(Pieces.pieces)
+  files : Option (List GFile)     -- Torrent.Files
+  complete : Bool                 -- Torrent.infoComplete
+  deriving Repr, DecidableEq
+
+/-- Torrent.MetadataComplete with its ASSIGNMENTS, in the order written: all the checks,
+    then inFlight, PieceHashes, Name, Pieces.MetadataComplete (which can still panic on a
+    second call), Files, infoComplete -/
+def metadataCompleteSt (st : TState) (bi : BInfo) : TState × Res Unit :=
+  match checks bi with
+  | .err e => (st, .err e)
+  | .panic w => (st, .panic w)
+  | .ok c =>
+    let st1 := { st with inFlight := some c.chunks, nHashes := some (bi.pieces.length / 20),
+                         name := c.name }
+    match piecesMetadataComplete st.psLen bi.pieceLength c.length with
+    | .err e => (st1, .err e)
+    | .panic w => (st1, .panic w)
+    | .ok n =>
+      ({ st1 with psLen := c.length, pieceSize := bi.pieceLength.toNat, nPieces := n,
+                  files := if c.multi && !c.files.isEmpty then some c.files else none,
+                  complete := true }, .ok ())
+
+/-- Pieces.PieceLength(index), as written: `last := uint32(length / pieceSize)` -/
+def pieceLengthAt (g : Geom) (index : Nat) : Nat :=
+  let last := (Int.tdiv g.length (g.pieceLength : Int)).toNat % 4294967296
+  if index < last then g.pieceLength
+  else if index = last then (Int.tmod g.length (g.pieceLength : Int)).toNat % 4294967296
+  else 0
+
+/-- Pieces.pieceChunks(index): blocks of a piece -/
+def pieceBlocks (g : Geom) (index : Nat) : Nat := (pieceLengthAt g index + 16384 - 1) / 16384
 
 /-- ⌈a / b⌉ on naturals -/
 def ceilDiv (a b : Nat) : Nat := (a + b - 1) / b
